@@ -68,7 +68,7 @@ fn exec_inner(st: &mut St, cmd: &str) -> String {
     let toks: Vec<&str> = cmd.split_whitespace().collect();
     match toks[0] {
         "inew" | "ixor" | "iadd" | "ichg" | "iprep" | "isym" | "igate" => crate::interp::exec(&mut st.i, &toks),
-        "imark" | "isame" | "iexpect" | "isnap" | "iunchanged" => String::new(),
+        "imark" | "isame" | "iexpect" | "isnap" | "iunchanged" | "iexprval" => String::new(),
         "op" => {
             let prog = ops::parse_prog(&toks[1..].join(" ")).expect("bad op program");
             let b = ops::build(&prog);
@@ -1185,6 +1185,21 @@ fn gen_int_case(r: &mut Rng, nonunitary: bool, stats: &mut HashMap<String, usize
     (format!("nq={}", p.env.nq()), cmds)
 }
 
+/// C10: a parameter expression with a known mathematical value, through the whole pipeline.
+fn gen_c10e_case(r: &mut Rng, stats: &mut HashMap<String, usize>) -> (String, Vec<String>) {
+    let d0 = r.range(1, 4);
+    let (e, v) = qgen::gen_expr(r, &[], d0);
+    *stats.entry(format!("len.{}", (e.len() / 10 * 10).min(100))).or_default() += 1;
+    // also through a user-defined gate with the expression over its parameter
+    let (src, val) = if r.chance(1, 3) {
+        let (e2, v2) = qgen::gen_expr(r, &[("t".to_string(), v)], 2);
+        (format!("qreg q[1];\ngate g(t) a {{ rz({e2}) a; }}\ng({e}) q[0];"), v2)
+    } else {
+        (format!("qreg q[1];\nrz({e}) q[0];"), v)
+    };
+    (format!("value={val}"), vec!["inew".into(), format!("iadd {}", hex(&src)), "iexpect ok".into(), format!("iexprval {}", val.to_bits())])
+}
+
 /// C13: a well-formed program with exactly one planted rule violation.
 fn gen_c13_case(r: &mut Rng, stats: &mut HashMap<String, usize>) -> (String, Vec<String>) {
     let p = qgen::gen_program(r, 5, true);
@@ -1577,6 +1592,7 @@ pub fn run(suite: &str, seed: u64, count: usize, kv: &HashMap<String, String>, t
             "int" => gen_int_case(&mut r, false, &mut stats),
             "intnu" => gen_int_case(&mut r, true, &mut stats),
             "c13" => gen_c13_case(&mut r, &mut stats),
+            "c10e" => gen_c10e_case(&mut r, &mut stats),
             "c17" => gen_c17_case(&mut r, &mut stats),
             "c18" => gen_c18_case(&mut r, &mut stats),
             "c09" => gen_c09_case(&mut r, &mut stats),
